@@ -82,3 +82,10 @@ Theorem C13_value_only : forall num den num' den' n, (0 < den)%Z -> (0 < den')%Z
   ctor KRat num den n = ctor KRat num' den' n.
 Proof. exact (ValueOnly.ctor_value_only KRat). Qed.
 Print Assumptions C13_value_only.
+
+(* the statement's own formula: digit p = floor(v * 10^(p+1-e)) mod 10 (division-free exponents: 10^[x] = 10^max(0,x)) *)
+Theorem C13_rat_digit_formula : forall num den n e ds ended p d, 0 < den ->
+  ctor_spec KRat num den n e ds ended -> nth_error ds p = Some d ->
+  d = ((num * p10 (Z.of_nat (S p) - e)) / (p10 (e - Z.of_nat (S p)) * den)) mod 10.
+Proof. exact rat_digit_formula. Qed.
+Print Assumptions C13_rat_digit_formula.
